@@ -385,6 +385,21 @@ def call_module(it, fv, args, kwargs):
         if not is_arr(a0):
             return a0
         return npm.np_amax(ctx, a0, name, 1 if name in ('amax', 'max') else -1)
+    if name in ('argmax', 'argmin'):
+        if not (isinstance(a0, SArr) and a0.ndim == 1) or kwargs or len(args) > 1:
+            raise Unsupported('np.%s form' % name)
+        g = npm.fz(a0)
+        n = a0.n
+        w = ctx.fresh(name, IntS)
+        ctx.add_iterm(w)
+        ctx.oblige('pre@callee', 'np.%s of a non-empty array' % name, scalar_cmp('>', n, 0))
+        ctx.assume(z3.And(w >= 0, w < tz(n)))
+        op = '<=' if name == 'argmax' else '>='
+        strict = '<' if name == 'argmax' else '>'
+        # first index attaining the extremum (numpy tie rule)
+        ctx.add_universal(lambda t: z3.Implies(z3.And(t >= 0, t < tz(n)), b2z(scalar_cmp(op, g(t), g(w), fp))))
+        ctx.add_universal(lambda t: z3.Implies(z3.And(t >= 0, t < w), b2z(scalar_cmp(strict, g(t), g(w), fp))))
+        return w
     if name in ('maximum', 'minimum'):
         f = zmax if name == 'maximum' else zmin
         a, b = args
